@@ -160,6 +160,9 @@ impl World {
                     self.disk.insert(to.clone(), t);
                 }
                 if let Some(t) = self.open.remove(from) {
+                    if self.close_forgets {
+                        self.background_run();
+                    }
                     self.open.insert(to.clone(), t.clone());
                     self.told_open(to, &t);
                 }
@@ -170,8 +173,11 @@ impl World {
                 if self.close_forgets {
                     self.forget(f);
                 }
-                self.open.remove(f);
+                let was_open = self.open.remove(f).is_some();
                 self.disk.remove(f);
+                if self.close_forgets && was_open {
+                    self.background_run();
+                }
             }
             Step::Create { f } => {
                 self.disk.insert(f.clone(), String::new());
@@ -324,7 +330,7 @@ pub fn generate(d: &mut Draw, thorough: bool) -> Hist {
     let n_pkg = d.usize_in(1, 2);
     let n_mod = d.usize_in(1, if n_pkg == 1 { 3 } else { 2 });
     let mut fno = 0;
-    let mut fname = |fno: &mut u32| {
+    let fname = |fno: &mut u32| {
         *fno += 1;
         format!("src/f{}.veryl", *fno)
     };
